@@ -24,4 +24,9 @@ PROP_ASSUMPTIONS = {
         "Rust's Display for i32 is modelled by natDigits/intToString (compared on 100k+ values incl. boundaries); f64 Display shape is a stated hypothesis",
         "shortest-round-trip float printing and str::parse::<f64> are trusted (numeric round-trip checked on the implementation only)",
     ],
+    "C03": [
+        "transition function of Model/Lexer.lean hand-written from Cursor::advance/eof/done; eatc look-aheads unfolded into intermediate states; tied by exhaustive correspondence",
+        "character-class tables regenerated from lookup.rs / mod.rs by the translator",
+        "reference lexer harness/src/lexspec.rs is our reading of the October-2021 lexical grammar (surrogate and braced escapes rejected as documented)",
+    ],
 }
